@@ -251,6 +251,7 @@ func (s *Sched) Loop() {
 		s.last = pick
 		s.mu.Lock()
 		pick.parked = false
+		pick.spin = false
 		s.mu.Unlock()
 		pick.wake <- struct{}{}
 	}
@@ -611,3 +612,8 @@ func MutexUnlocked() {
 	}
 	s.mu.Unlock()
 }
+
+// Blocked marks the calling task as waiting for some other task's progress:
+// the scheduler picks it only when nothing else can run (cleared by any
+// MutexUnlocked/pipe progress or when it is picked).
+func Blocked() { taskBlocked() }
